@@ -24,6 +24,8 @@ mod fam_c33;
 mod fam_c32;
 mod fam_c19;
 mod fam_c35;
+mod fam_c29;
+mod fam_c30;
 
 pub fn unescape(s: &str) -> String {
     let mut out = String::with_capacity(s.len());
